@@ -20,3 +20,4 @@ def run(prog, rep):
     _rkx.run_handles_only(prog, rep)
     r_valid.run_loop_fresh(prog, rep)
     _ru3.run_tables(prog, rep)
+    r_valid.run_sorted_agree(prog, rep)
